@@ -286,6 +286,7 @@ var kwNames = []string{"x", "key", "reverse", "default", "sep", "end", "start", 
 var fixedTime = gotime.Unix(1700000000, 5).UTC()
 
 type callCase struct {
+	alias    int  // block L: 1 = m(recv), 2 = m(recv, recv), 3 = f(v, v) with v one object
 	oper     bool // block O: m.opc[callable]
 	text     bool // block T: textTemplates[callable] applied to textStrings[args[0]]
 	callable int
@@ -308,6 +309,7 @@ type callMode struct {
 	tts       []textTemplate
 	tstr      []string
 	tpairs    [][2]int32
+	nAl       int64 // block L: the receiver itself as argument (m(recv), m(recv, recv)); f(v, v) with one object
 	nO        int64 // block O (opblock.go): operators x operands
 	opv       []poolEntry
 	opc       []opCase
@@ -358,6 +360,7 @@ func newCallMode(o *opts) *callMode {
 		}
 	}
 	m.nT = int64(len(m.tpairs))
+	m.nAl = C*2 + int64(len(m.prim))*P
 	m.buildOps()
 	m.nO = int64(len(m.opc))
 	m.nA = C * (1 + P)
@@ -386,7 +389,7 @@ func newCallMode(o *opts) *callMode {
 	m.fns = fns
 	if o.single != "" {
 		m.single = m.parseSingle(o.single)
-		m.nA, m.nB2, m.nB3, m.nS, m.nE, m.nE3, m.nT, m.nO = 1, 0, 0, 0, 0, 0, 0, 0
+		m.nA, m.nB2, m.nB3, m.nS, m.nE, m.nE3, m.nT, m.nO, m.nAl = 1, 0, 0, 0, 0, 0, 0, 0, 0
 	}
 	return m
 }
@@ -408,7 +411,9 @@ func (m *callMode) Spans(workers int) []span {
 	return out
 }
 
-func (m *callMode) Count() int64 { return m.nA + m.nT + m.nO + m.nE + m.nE3 + m.nB2 + m.nB3 + m.nS }
+func (m *callMode) Count() int64 {
+	return m.nA + m.nT + m.nO + m.nAl + m.nE + m.nE3 + m.nB2 + m.nB3 + m.nS
+}
 
 func (m *callMode) decode(i int64) callCase {
 	if m.single != nil {
@@ -433,6 +438,16 @@ func (m *callMode) decode(i int64) callCase {
 		return callCase{oper: true, callable: int(i)}
 	}
 	i -= m.nO
+	if i < m.nAl {
+		C := int64(len(m.cs))
+		if i < C*2 {
+			return callCase{alias: int(1 + i%2), callable: int(i / 2)}
+		}
+		i -= C * 2
+		P := int64(len(m.pool))
+		return callCase{alias: 3, callable: m.prim[i/P], args: []int{int(i % P)}}
+	}
+	i -= m.nAl
 	if i < m.nE {
 		E := int64(len(m.edge))
 		c := i / (E * E)
@@ -525,6 +540,19 @@ func (m *callMode) Run(i int64) string {
 	args := make(starlark.Tuple, len(cc.args))
 	for k, a := range cc.args {
 		args[k] = m.pool[a].mk(c)
+	}
+	switch cc.alias {
+	case 1, 2:
+		var recv starlark.Value = fn
+		if b, ok := fn.(*starlark.Builtin); ok && b.Receiver() != nil {
+			recv = b.Receiver()
+		}
+		args = starlark.Tuple{recv}
+		if cc.alias == 2 {
+			args = starlark.Tuple{recv, recv}
+		}
+	case 3:
+		args = starlark.Tuple{args[0], args[0]}
 	}
 	var kwargs []starlark.Tuple
 	for k, n := range cc.kwn {
@@ -644,7 +672,10 @@ func (m *callMode) Describe(i int64) map[string]any {
 		}
 		call += p[0] + "=" + p[1]
 	}
-	return map[string]any{"callable": m.cs[cc.callable].name, "args": args, "kwargs": kw, "call": call + ")", "huge": m.isHuge(cc)}
+	if cc.alias > 0 {
+		call = m.cs[cc.callable].name + []string{"", "(<the receiver itself>", "(<the receiver itself>, <the receiver itself>", "(v, v) with v = one object: " + strings.Join(args, "")}[cc.alias]
+	}
+	return map[string]any{"callable": m.cs[cc.callable].name, "args": args, "kwargs": kw, "call": call + ")", "huge": m.isHuge(cc), "alias": cc.alias}
 }
 
 func (m *callMode) parseSingle(s string) *callCase {
@@ -653,6 +684,7 @@ func (m *callMode) parseSingle(s string) *callCase {
 		Args     []string    `json:"args"`
 		Kwargs   [][2]string `json:"kwargs"`
 		Text     string      `json:"text_b64"`
+		Alias    int         `json:"alias"`
 		Unary    bool        `json:"unary"`
 		X        string      `json:"x"`
 		Y        string      `json:"y"`
@@ -711,6 +743,7 @@ func (m *callMode) parseSingle(s string) *callCase {
 	for _, a := range d.Args {
 		cc.args = append(cc.args, find(a))
 	}
+	cc.alias = d.Alias
 	for _, kv := range d.Kwargs {
 		cc.kwn = append(cc.kwn, kv[0])
 		cc.kwv = append(cc.kwv, find(kv[1]))
